@@ -283,7 +283,7 @@ def check(tier, seed):
             R.nontrivial.add(C.case_key(op))
         terms.append(f"({cop(op)}, {cobs(out)})")
     R.samples = [C.to_json(o) for o in (ops[37], ops[len(ops) // 2], ops[-30])]
-    shard = 800 if tier == "quick" else 3000
+    shard = 800 if tier == "quick" else 1500
     mism, errs, nsh = C.eval_cases("C16", "cases", IMPORTS, "c16_run", CASE_T, terms, shard=shard)
     R.shards, R.coq_errors = nsh, errs
     R.shards_ok = nsh - len(errs) - len({m // shard for m in mism})
